@@ -36,7 +36,15 @@ fn exclusion(op: &Value) -> Value {
   let cutoff = op["date"].as_u64();
   options.date = cutoff.map(|d| NewestDependencyDate(date(d)));
   if op["exact"].as_bool().unwrap_or(false) {
-    options.exclude_jsr_pkgs.insert("@scope/pkg".into());
+    // the entry equals the package name, is a strict prefix of it, or is unrelated
+    let entry = if op["exact_equals"].as_bool().unwrap_or(true) {
+      "@scope/pkg"
+    } else if op["exact_is_prefix"].as_bool().unwrap_or(false) {
+      "@scope/pk"
+    } else {
+      "@zzz/other"
+    };
+    options.exclude_jsr_pkgs.insert(entry.into());
   }
   for p in op["prefixes"].as_array().unwrap() {
     // [present, matches]
